@@ -6,6 +6,7 @@
         -> CFG <pc> <halt flag> - <log> <vars>  |  NONE           un-halted machine after n iterations
      F <src> <n> <maxsteps> <prog> <cmds> <vars>
         -> CAND <log> <vars>&<vars>...  |  NOCAND             boundaries of the un-halted run with n invocations
+     M <fuel> <prog> <cmds> <aliases> <watch>                  nested flows, see the M case below
    src      N | S<str>            source file of the script (None: run from text)
    halt_at  N | <k>               external flag raised from poll k on
    prog     - | line;line;...     line = E | P | <label>|<out>|<cmd>|<args>   (options N / S<str>, args a list)
@@ -118,4 +119,28 @@ let () = iter_lines (fun line ->
       (match go 0 (s_init v cs) [] None with
        | (_, None) -> print_endline "NOCAND"
        | (acc, Some log) -> Printf.printf "CAND\t%s\t%s\n" log (String.concat "&" (List.rev acc)))
+  | "M" :: fuel :: prog :: cmds :: aliases :: watch :: _ ->
+      (* nested flows (C13): aliases = - | a&a&...   a = <name>@<override: N | result>@<body prog>
+         -> <OK|ERR|FUEL> <detail> <line> - <log of base-command invocations name|args;...> <watched vars name=<opt>;...> *)
+      let p = parse_prog None prog and cs = parse_cmds cmds in
+      let als = List.map (fun a ->
+        match String.split_on_char '@' a with
+        | [name; ovr; body] ->
+            (str_of_field name, (parse_prog None body, (if ovr = "N" then None else Some (parse_res ovr).sr_res)))
+        | _ -> failwith "bad alias") (split_nonempty '&' aliases) in
+      let show_calls l =
+        let l = List.filter (fun c -> c.c_name <> on_error_name) l in
+        if l = [] then "-" else String.concat ";" (List.map (fun c -> field_of_str c.c_name ^ "|" ^ field_of_list c.c_inv.a_args) l) in
+      (match n_run (nat_of_int (int_of_string fuel)) p cs als with
+       | OutOfFuel -> print_endline "FUEL\t-\t-\t-\t-\t-"
+       | Done (FOk (r, w), _) ->
+           let vs = List.map (fun v -> field_of_str v ^ "=" ^ field_of_opt (n_var w v)) (list_of_field watch) in
+           Printf.printf "OK\t%s\t-\t-\t%s\t%s\n"
+             (match r with ReachedEnd -> "END" | ExitCalled -> "EXIT" | Halted -> "HALT")
+             (show_calls (n_log_of w)) (if vs = [] then "-" else String.concat ";" vs)
+       | Done (FErr (e, m), t) ->
+           let log = match n_iter (nat_of_int (List.length t - 1)) p cs als with
+             | Some c -> show_calls (n_log_of c.wd) | None -> "?" in
+           Printf.printf "ERR\t%s\t%s\t-\t%s\t-\n" (show_err e)
+             (match m.m_line with None -> "N" | Some n -> string_of_int (int_of_nat n)) log)
   | _ -> print_endline "BADLINE")
